@@ -1163,41 +1163,40 @@ Proof. intros H. unfold get_string_len, slen_abs. rewrite H. reflexivity. Qed.
 Definition ex_al : alloc := fun k _ => negb (k =? 2).      (* the third allocation request fails *)
 Definition ex_ops : list sop :=
   [OpSetLen [1; 0; 255; 47; 9] 4;                                   (* shorter, embedded NUL, inline *)
+   OpSetOwn 0;                                                      (* set_string(o, get_string(o)): cut at the NUL *)
    OpSetLen [97; 98; 99; 100; 101; 102; 103; 104; 105; 106; 107; 108] 12;   (* longer: separate buffer *)
-   OpSet [97; 98; 0; 99];                                           (* strlen-based, reuses the buffer *)
+   OpSetOwnLen 0 9;                                                 (* truncation in place, separate buffer *)
+   OpSetOwnLen 6 3;                                                 (* "ghi": own buffer + 6, disjoint copy *)
    OpSetLen [1; 2; 3; 4; 5; 6; 7; 8; 9; 10; 11; 12; 13; 14] 14;     (* allocation failure *)
-   OpSetLen [1; 2; 3] 3;                                            (* longer than remembered: new buffer *)
-   OpSetLen [] 0;                                                   (* zero length: back inline *)
+   OpSetLen [1; 2; 3; 4] 4;                                         (* longer than remembered: new buffer *)
+   OpSetOwnLen 0 0;                                                 (* in-place truncation to zero: back inline *)
    OpSetLen [5] (-1);                                               (* refused length *)
    OpSetLen [0; 200] 2].                                            (* separate again *)
 
 Example history_nontrivial :
-  Forall op_wf ex_ops /\
   match new_string_len (fun _ _ => true) [104; 101; 108; 108; 111] 5 with
   | NOk s0 =>
+      hist_ok ex_al s0 ex_ops /\
       match str_run ex_al s0 ex_ops with
       | Some (s, rets) =>
-          rets = [1; 1; 1; 0; 1; 1; 0; 1] /\
+          rets = [1; 1; 1; 1; 1; 0; 1; 1; 0; 1] /\
           get_string s = Some [Some 0; Some 200] /\ get_string_len s = 2 /\ get_nul s = Some (Some 0) /\
           is_sep s = true /\ live_of_log (elog s) = [3; 0] /\
           str_ser false s = Some [34; 92; 117; 48; 48; 48; 48; 200; 34] /\
           match str_delete s with
-          | DOk s' => elog s' = [EvFree 0; EvFree 3; EvMalloc 3 3; EvFree 2; EvFree 1; EvMalloc 2 4;
+          | DOk s' => elog s' = [EvFree 0; EvFree 3; EvMalloc 3 3; EvFree 2; EvFree 1; EvMalloc 2 5;
                                  EvMalloc 1 13; EvMalloc 0 57]
           | DUB => False
           end
       | None => False
+      end /\
+      match str_run ex_al s0 (firstn 5 ex_ops) with
+      | Some (s, _) => get_string s = Some [Some 103; Some 104; Some 105]
+      | None => False
       end
   | _ => False
   end.
-Proof.
-  split.
-  - unfold ex_ops.
-    repeat (apply Forall_cons;
-            [cbn [op_wf zlen]; unfold INT_MIN, INT_MAX; first [lia | cbn; auto 10]|]).
-    apply Forall_nil.
-  - vm_compute. repeat split.
-Qed.
+Proof. vm_compute. intuition (try discriminate; auto 10). Qed.
 
 (* equality distinguishes strings that differ only after an embedded NUL; a failed set and a
    refused length are really reachable *)
@@ -1216,7 +1215,7 @@ Proof. vm_compute. repeat split; discriminate. Qed.
 Example model_detects_uaf_and_double_free :
   match new_string_len (fun _ _ => true) [1; 2; 3] 3 with
   | NOk s0 =>
-      match set_string_len (fun _ _ => true) s0 [1; 2; 3; 4; 5] 5 with
+      match set_string_len (fun _ _ => true) s0 (PExt [1; 2; 3; 4; 5]) 5 with
       | SOk s1 _ _ =>
           match pptr s1 with
           | Some p =>
@@ -1225,10 +1224,43 @@ Example model_detects_uaf_and_double_free :
                   (* same node, but its buffer has been released behind its back *)
                   let bad := mkst (slen s1) (ilen0 s1) (pptr s1) h' (reqs s1) (EvFree p :: elog s1) in
                   get_string bad = None /\ str_delete bad = DUB /\
-                  set_string_len (fun _ _ => true) bad [9] 1 = SUB /\
+                  set_string_len (fun _ _ => true) bad (PExt [9]) 1 = SUB /\
                   log_ok (EvFree p :: EvFree p :: elog s1) = false
               | None => False
               end
+          | None => False
+          end
+      | SUB => False
+      end
+  | _ => False
+  end.
+Proof. vm_compute. repeat split. Qed.
+
+(* the order "copy, then release" is part of the model: had the old buffer been released
+   before the copy (as in the zero-length branch, but for a non-zero length), a source inside
+   the node's own buffer would be read after its release — the model says UB; and a source
+   that partially overlaps its destination is UB as memcpy defines it *)
+Example copy_before_free_matters :
+  match new_string_len (fun _ _ => true) [1; 2; 3] 3 with
+  | NOk s0 =>
+      match set_string_len (fun _ _ => true) s0 (PExt [65; 66; 67; 68; 69; 70; 71; 72; 73; 74]) 10 with
+      | SOk s1 _ _ =>
+          match pptr s1 with
+          | Some p =>
+              (* the unchanged order: truncation in place to 5 bytes *)
+              (match str_step (fun _ _ => true) s1 (OpSetOwnLen 0 5) with
+               | SOk s2 r _ => r = 1 /\ get_string s2 = Some (map Some [65; 66; 67; 68; 69]) /\ is_sep s2 = true
+               | SUB => False
+               end) /\
+              (* release first, then copy from the released block *)
+              (match hfree (hp s1) p with
+               | Some h' =>
+                   set_finish (mkst 0 (ilen0 s1) (pptr s1) h' (reqs s1) (EvFree p :: elog s1))
+                              0 (PHeap p 0) 5 5 = SUB
+               | None => False
+               end) /\
+              (* partial overlap: json_object_set_string_len(o, json_object_get_string(o) + 1, 5) *)
+              str_step (fun _ _ => true) s1 (OpSetOwnLen 1 5) = SUB
           | None => False
           end
       | SUB => False
